@@ -15,6 +15,13 @@
 //   coro     : one consumer coroutine (cocls::async<void>) performs all accesses: sync ones, co_await
 //              gen.next(), co_await of the future / of future::has_value() / future kept and the awaited
 //              operation completed by the coroutine itself, and a real range-for for begin/inc runs
+//   cb       : the consumer is a set of completion CALLBACKS that run inline inside the generator's hand-over
+//              (yield_suspend::await_suspend -> caller->resume()): gen() futures are consumed through the
+//              library's call_fn_future_awaiter, co_await-style accesses through an awaiter given to
+//              next().subscribe(); a callback asks for the next item right away from inside itself when the next
+//              access is of one of these two kinds (re-entrant request while the generator is still inside
+//              yield_suspend); the other styles are made by plain code as in `native`.  The step comparison is
+//              then made from inside the callback, and once more after everything has unwound.
 //   thr_late / thr_early : as native but the consumer runs on its own thread under the controlled
 //              scheduler (vsched); a sync access may really block in _block.wait(), every other gen()
 //              future is waited for with a blocking sync(), and the awaited operation is completed by
@@ -40,6 +47,37 @@ using cocls_verif::vsched;
 using cocls_verif::op_t;
 
 struct TestExc : std::exception {};
+
+// ---------------------------------------------------------------------------------------------
+// allocation accounting (C20: stepping a synchronous generator allocates nothing of its own).
+// Every global operator new executed by a thread while it is inside a consumer access (an open
+// `Win`) is counted, except harness bookkeeping done from inside such an access (`Pause`: the body's
+// script interpreter, the step comparison made from inside a completion callback).  The coroutine
+// frames (the generator's, the consumer coroutines') are created outside the accesses.
+// C++ exceptions are allocated by the runtime with malloc (__cxa_allocate_exception), not operator new.
+// ---------------------------------------------------------------------------------------------
+static thread_local int t_window = 0;
+static thread_local int t_pause = 0;
+static std::atomic<long> g_lib_allocs{0};
+struct Win { Win() { ++t_window; } ~Win() { --t_window; } Win(const Win &) = delete; };
+struct Pause { Pause() { ++t_pause; } ~Pause() { --t_pause; } Pause(const Pause &) = delete; };
+struct WinFlag {      // a window that can be closed while the consumer coroutine waits for its next command
+    bool open = false;
+    void on() { if (!open) { ++t_window; open = true; } }
+    void off() { if (open) { --t_window; open = false; } }
+    ~WinFlag() { off(); }
+};
+void *operator new(std::size_t sz) {
+    void *p = malloc(sz ? sz : 1);
+    if (!p) throw std::bad_alloc();
+    if (t_window > 0 && t_pause == 0) g_lib_allocs.fetch_add(1, std::memory_order_relaxed);
+    return p;
+}
+void *operator new[](std::size_t sz) { return operator new(sz); }
+void operator delete(void *p) noexcept { free(p); }
+void operator delete[](void *p) noexcept { operator delete(p); }
+void operator delete(void *p, std::size_t) noexcept { operator delete(p); }
+void operator delete[](void *p, std::size_t) noexcept { operator delete(p); }
 
 // ---------------------------------------------------------------------------------------------
 // access to the private hand-over record of generator<>::promise_type (explicit instantiation may
@@ -118,7 +156,7 @@ G body_fn(World<G> *w, Param) {
         std::size_t pos = w->bdone.size();
         if (pos >= w->bscript.size()) { w->body_error = "body script exhausted"; co_return; }
         const std::string kind = w->bscript[pos];
-        w->bdone.push_back(kind);
+        { Pause hp; w->bdone.push_back(kind); }
         if (kind == "yield") {
             int v = ++w->nyield;
             w->bst = "yield";
@@ -126,10 +164,12 @@ G body_fn(World<G> *w, Param) {
                 if (v & 1) {
                     int a = co_yield v;              // yield_value(Ret &)
                     w->bst = "run";
+                    Pause hp;
                     w->got.push_back({w->cur, a});
                 } else {
                     int a = co_yield int(v);         // yield_value(Ret &&)
                     w->bst = "run";
+                    Pause hp;
                     w->got.push_back({w->cur, a});
                 }
             } else {
@@ -140,6 +180,7 @@ G body_fn(World<G> *w, Param) {
         } else if (kind == "ynull") {
             if constexpr (WithArg) {
                 int a = co_yield nullptr;
+                Pause hp;
                 w->got.push_back({w->cur, a});
             } else {
                 co_yield nullptr;
@@ -157,7 +198,7 @@ G body_fn(World<G> *w, Param) {
         } else if (kind == "apend") {
             int k = ++w->nawait;
             cocls::future<int> f;
-            w->proms[k] = f.get_promise();
+            { Pause hp; w->proms[k] = f.get_promise(); }
             w->bst = "await";
             int r = co_await f;
             w->bst = "run";
@@ -178,6 +219,25 @@ template <typename G> struct Gate {
     bool await_ready() const noexcept { return false; }
     void await_suspend(std::coroutine_handle<> h) noexcept { w->gate_h = h; }
     Cmd await_resume() const noexcept { return w->cmd; }
+};
+
+// callback consumers (mode cb)
+template <typename G> struct CbOwner {
+    World<G> *w;
+    cocls::suspend_point<void> on_item(cocls::future<int> &f) noexcept { w->cb_future_done(f); return {}; }
+};
+template <typename G> struct FutAwt : cocls::call_fn_future_awaiter<&CbOwner<G>::on_item> {
+    using base = cocls::call_fn_future_awaiter<&CbOwner<G>::on_item>;
+    using base::base;
+    const void *fut_address() const { return &this->_fut; }
+};
+template <typename G> struct SubAwt : cocls::awaiter {
+    World<G> *w = nullptr;
+    SubAwt() { set_resume_fn(&SubAwt::fire, nullptr); }
+    static cocls::suspend_point<void> fire(cocls::awaiter *me, void *) noexcept {
+        static_cast<SubAwt *>(me)->w->cb_next_done();
+        return {};
+    }
 };
 
 template <typename G> cocls::async<void> co_access(World<G> &w, int i);
@@ -223,7 +283,24 @@ struct World {
     int ct = -1;
     Cmd tcmd;
 
+    long alloc_base = 0;
+    // callback mode
+    CbOwner<G> cbo{this};
+    FutAwt<G> cbawt{cbo};
+    SubAwt<G> subawt;
+    const Scenario *scp = nullptr;
+    Reporter *repp = nullptr;
+    std::size_t kcur = 0;
+    int cb_access = 0;
+    bool cb_bad = false;
+
     World() { obs.reserve(64); args.resize(64); for (int i = 0; i < 64; i++) args[i] = 100 + i; }
+
+    // the body executed so far is synchronous (co_yield / co_yield nullptr / throw / return only)
+    bool sync_so_far() const {
+        for (auto &k : bdone) if (k != "yield" && k != "ynull" && k != "throw" && k != "return") return false;
+        return true;
+    }
 
     promise_type &P() { return std::coroutine_handle<promise_type>::from_address(frame).promise(); }
     bool hdone() { return std::coroutine_handle<promise_type>::from_address(frame).done(); }
@@ -269,6 +346,7 @@ struct World {
     // if (gen.next()) v = gen.value();
     void sync_access(int i) {
         Obs &o = obs[i - 1];
+        Win win;
         try {
             if ((i & 1) || WithArg) {
                 auto a = next_(i);
@@ -288,6 +366,7 @@ struct World {
     void iter_access(Kind kind, int i) {
         if constexpr (!WithArg) {
             Obs &o = obs[i - 1];
+            Win win;
             try {
                 if (kind == K_BEGIN) iter.emplace(gen->begin());
                 else if (kind == K_INC) ++*iter;
@@ -308,9 +387,17 @@ struct World {
     // f = gen(); kept; looked at when ready
     void future_access(int i) {
         Obs &o = obs[i - 1];
+        // the future object is the consumer's: its storage is obtained outside the measured access
+        auto &slot = futs[i];
+        void *mem = ::operator new(sizeof(cocls::future<int>));
+        fut_addr[i] = mem;
         try {
-            futs[i].reset(new cocls::future<int>(call_(i)));
-            fut_addr[i] = futs[i].get();
+            {
+                Win win;
+                try { new (mem) cocls::future<int>(call_(i)); }
+                catch (...) { ::operator delete(mem); fut_addr.erase(i); throw; }
+            }
+            slot.reset(static_cast<cocls::future<int> *>(mem));
             // own thread: every other future is waited for like `*gen()` does (blocks in the future's
             // sync_awaiter until the body, continued by the completing thread, has yielded or ended)
             if (ct >= 0 && (i & 1)) futs[i]->sync();
@@ -322,7 +409,7 @@ struct World {
         for (auto &kv : futs) {
             if (!kv.second) continue;
             Obs &o = obs[kv.first - 1];
-            if (o.r == "pending") observe_future(o, *kv.second, kv.first);
+            if (o.r == "pending") { Win win; observe_future(o, *kv.second, kv.first); }
         }
     }
 
@@ -339,6 +426,104 @@ struct World {
             case K_DESTROY: iter.reset(); gen.reset(); break;
             default: break;
         }
+    }
+
+    // ---- callback mode --------------------------------------------------------------------
+    bool check_inside(std::size_t k) {        // step comparison made from inside an access: harness work
+        Pause hp;
+        return repp->check(k, project());
+    }
+    // an access has completed (callback ran / completed without suspension): compare, then the consumer asks
+    // for the next item right away if the next access is a callback-style one
+    void cb_completed() {
+        if (cb_bad) return;
+        std::size_t k = kcur;
+        if (!check_inside(k)) { cb_bad = true; return; }
+        kcur = k + 1;
+        if (kcur >= scp->steps.size()) return;
+        const Step &st = scp->steps[kcur];
+        if (st.name == "NextFuture") cb_issue(K_FUTURE);
+        else if (st.name == "NextAsync") cb_issue(K_COAWAIT);
+    }
+    void cb_future_done(cocls::future<int> &f) {
+        Obs &o = obs[cb_access - 1];
+        if (!f.has_value()) { o.r = "end"; o.v = 0; }
+        else {
+            try { o.v = *f; o.r = "val"; }
+            catch (const TestExc &) { o.r = "exc"; o.v = 0; }
+            catch (const cocls::no_more_values_exception &) { o.r = "nomore"; o.v = 0; }   // thrown by gen(), stored by operator<<
+            catch (...) { o.r = "other_exception"; }
+        }
+        cb_completed();
+    }
+    void cb_next_done() {
+        observe_next(obs[cb_access - 1], !gen->done());
+        cb_completed();
+    }
+    void cb_issue(Kind kind) {
+        std::size_t k = kcur;
+        int i;
+        {
+            Pause hp;
+            i = ++cur;
+            cdone.push_back(kind == K_FUTURE ? "future" : "coawait");
+            obs.emplace_back();
+            cb_access = i;
+            fut_addr.clear();
+            if (kind == K_FUTURE) fut_addr[i] = cbawt.fut_address();
+        }
+        bool inline_done = false;
+        {
+            Win win;
+            if (kind == K_FUTURE) {
+                cbawt << [&] { return call_(i); };       // an exception of gen() becomes the future's result
+            } else {
+                try {
+                    auto a = next_(i);
+                    if (a.await_ready()) { observe_next(obs[i - 1], a.await_resume()); inline_done = true; }
+                    else a.subscribe(&subawt);
+                } catch (const cocls::no_more_values_exception &) { obs[i - 1].r = "nomore"; inline_done = true; }
+                catch (...) { obs[i - 1].r = "other_exception"; inline_done = true; }
+            }
+            if (inline_done) cb_completed();
+        }
+        if (!cb_bad && kcur == k) {              // still outstanding: nothing has compared this step yet
+            if (!check_inside(k)) cb_bad = true;
+            kcur = k + 1;
+        }
+    }
+    void run_cb(const Scenario &sc, Reporter &rep) {
+        scp = &sc; repp = &rep; subawt.w = this;
+        kcur = 0;
+        while (kcur < sc.steps.size() && !cb_bad) {
+            std::size_t k = kcur;
+            const Step &st = sc.steps[k];
+            Cmd c;
+            if (st.name == "NextFuture") cb_issue(K_FUTURE);
+            else if (st.name == "NextAsync") cb_issue(K_COAWAIT);
+            else if (parse_cmd(st, c)) {
+                if (c.kind != K_DESTROY) {
+                    c.idx = ++cur;
+                    cdone.push_back(style_name(c.kind));
+                    obs.emplace_back();
+                }
+                exec_native(c);
+                if (!rep.check(k, project())) cb_bad = true;
+                kcur = k + 1;
+            } else if (st.name == "ExternalResolve") {
+                resolve(st.iarg(0));
+                if (!cb_bad && kcur == k) {          // the body suspended again without handing anything over
+                    if (!rep.check(k, project())) cb_bad = true;
+                    kcur = k + 1;
+                }
+            } else { rep.error(k, "unknown action"); cb_bad = true; break; }
+            // everything has unwound to the driver: the state must still be the one after the last step made
+            if (!cb_bad && kcur > k + 1 && !rep.check(kcur - 1, project())) cb_bad = true;
+        }
+        if (cb_bad) { leaked = true; return; }
+        iter.reset();
+        gen.reset();
+        if (par_live != 0 || loc_ctor != loc_dtor) rep.diverge(sc.steps.size() - 1, "locals/parameters not destroyed exactly once at the end");
     }
 
     // ---- coro mode ------------------------------------------------------------------------
@@ -403,6 +588,7 @@ struct World {
         for (auto &o : obs) { J e = J::map(); e.set("p", o.p); e.set("r", o.r); e.set("v", o.v); ol.push(e); }
         m.set("obs", ol);
         m.set("par", par_live);
+        if (sync_so_far()) m.set("allocs", g_lib_allocs.load() - alloc_base);
         J pr = J::map();
         if (gen) {
             promise_type &p = P();
@@ -455,6 +641,9 @@ struct World {
 
     void run(const Scenario &sc, Reporter &rep, const std::string &mode_) {
         mode = mode_;
+        t_window = 0; t_pause = 0;
+        bdone.reserve(16); got.reserve(16); cdone.reserve(16);
+        alloc_base = g_lib_allocs.load();
         bool threaded = mode == "thr_late" || mode == "thr_early";
         if (!sc.steps.empty()) {
             JV last = JReader(sc.steps.back().expected).parse();
@@ -462,6 +651,7 @@ struct World {
         }
         gen.emplace(body_fn<G>(this, Param(&par_live)));
         frame = const_cast<void *>(gen->get_id());
+        if (mode == "cb") { run_cb(sc, rep); return; }
         if (mode == "coro") consumer<G>(*this).detach();
         if (threaded) {
             sched.log_enabled = false;
@@ -564,6 +754,7 @@ struct World {
 // co_await gen.next(args...) made by a coroutine of its own (native / threaded modes)
 template <typename G>
 cocls::async<void> co_access(World<G> &w, int i) {
+    ++t_window;      // the access (the helper's own frame was allocated before)
     try {
         bool b;
         if constexpr (World<G>::WithArg) b = co_await w.gen->next(w.args[i]);
@@ -574,6 +765,7 @@ cocls::async<void> co_access(World<G> &w, int i) {
     } catch (...) {
         w.obs[i - 1].r = "other_exception";
     }
+    --t_window;
     w.helpers_finished++;
 }
 
@@ -591,16 +783,20 @@ cocls::async<void> consumer(World<G> &w) {
         switch (c.kind) {
             case K_SYNC: w.sync_access(i); break;
             case K_COAWAIT: {
+                ++t_window;
                 try {
                     bool b;
                     if constexpr (WithArg) b = co_await w.gen->next(w.args[i]);
                     else b = co_await w.gen->next();
                     w.observe_next(w.obs[i - 1], b);
                 } catch (const cocls::no_more_values_exception &) { w.obs[i - 1].r = "nomore"; }
+                --t_window;
             } break;
             case K_RESOLVE: w.resolve(c.idx); break;
             case K_FUTURE: {
                 if (i % 3 == 0) { w.future_access(i); break; }     // kept, not awaited; looked at when ready
+                { Pause hp; w.fut_addr[i] = nullptr; }             // map node: consumer's bookkeeping
+                ++t_window;
                 try {
                     if (i & 1) {
                         // keep the future, ask it
@@ -613,7 +809,6 @@ cocls::async<void> consumer(World<G> &w) {
                             try { o.v = *f; o.r = "val"; }
                             catch (const TestExc &) { o.r = "exc"; }
                         }
-                        w.fut_addr.erase(i);
                     } else {
                         // co_await the future directly
                         Obs &o = w.obs[i - 1];
@@ -622,28 +817,37 @@ cocls::async<void> consumer(World<G> &w) {
                         try { o.v = co_await f; o.r = "val"; }
                         catch (const TestExc &) { o.r = "exc"; }
                         catch (const cocls::await_canceled_exception &) { o.r = "end"; o.v = 0; }
-                        w.fut_addr.erase(i);
                     }
                 } catch (const cocls::no_more_values_exception &) { w.obs[i - 1].r = "nomore"; }
+                --t_window;
+                { Pause hp; w.fut_addr.erase(i); }
             } break;
             case K_BEGIN: {
                 if constexpr (!WithArg) {
                     bool entered = false;
+                    WinFlag win;
                     try {
+                        win.on();
                         for (int &v : *w.gen) {
                             entered = true;
                             w.obs[i - 1].v = v;
                             w.obs[i - 1].r = "val";
                             w.it = "true";
+                            win.off();
                             c = co_await Gate<G>{&w};
                             if (c.kind != K_INC) { have = true; break; }
                             i = c.idx;
+                            win.on();
                         }
-                        if (!have) { w.it = "false"; w.observe_next(w.obs[i - 1], false); w.iter.emplace(*w.gen, false); }
+                        if (!have) { w.it = "false"; w.observe_next(w.obs[i - 1], false); }
+                        win.off();
+                        if (!have) w.iter.emplace(*w.gen, false);
                         else w.iter.emplace(*w.gen, true);      // equivalent of the abandoned loop iterator
                     } catch (const TestExc &) {
+                        win.off();
                         w.obs[i - 1].r = "exc"; w.it = "true"; w.iter.emplace(*w.gen, true);
                     } catch (const cocls::no_more_values_exception &) {
+                        win.off();
                         w.obs[i - 1].r = "nomore";
                         if (entered) w.iter.emplace(*w.gen, true);
                     }
